@@ -313,6 +313,15 @@ def base_env(c: api.FnContract):
         env[n] = g
     env.setdefault("allocated", lambda x: True)
     env["__same"] = same
+    # module globals of the verified function (enum classes, constants): the symbolic side resolves free names of a clause
+    # there as well; lowest priority
+    try:
+        mod = importlib.import_module(c.target.split("#")[0].split(":")[0])
+        for n, g in vars(mod).items():
+            if not n.startswith("__"):
+                env.setdefault(n, g)
+    except Exception:  # noqa
+        pass
     return env
 
 
